@@ -174,6 +174,10 @@ class C13(P.Property):
                               skew=rng.choice([1.0, 1.0, 0.5, 2.0]), db=db)
         pl["knobs"]["named_create"] = named
         pl["knobs"]["redo"] = rng.random() < 0.3
+        if rng.random() < 0.25:
+            pl["knobs"]["mtime_gran"] = rng.choice([1, 2])  # coarse file time stamps
+        if rng.random() < 0.15:
+            pl["knobs"]["reboot_clock"] = rng.choice([-3600.0, -5.0, -3 * 86400.0, 3600.0, 9 * 86400.0])  # wall clock after the first restart
         return pl
 
     # ------------------------------------------------------------------ execution
@@ -263,6 +267,13 @@ class C13(P.Property):
         for it in range(MAX_OPS):
             f0 = fired()
             # --- restart whatever is dead
+            if not run.server.alive or not host.proc.alive:
+                d = knobs.get("reboot_clock")
+                if d and not out.get("clock_stepped"):
+                    # the machine comes back with another idea of the time (RTC off, no time sync yet): time.time() and new file stamps jump
+                    out["clock_stepped"] = True
+                    run.wall_off += d
+                    run.sim.count("clock_step_back" if d < 0 else "clock_step_forward")
             if not run.server.alive:
                 await asyncio.sleep(0.05)
                 run.boot_server()
@@ -483,7 +494,7 @@ class C13(P.Property):
     # ------------------------------------------------------------------ minimisation
     def simplifications(self, plan):
         k = plan["knobs"]
-        for key, val in (("skew", 1.0), ("net", dict(lo=0.001, hi=0.02)), ("db", REF_DB), ("named_create", False), ("redo", False)):
+        for key, val in (("skew", 1.0), ("net", dict(lo=0.001, hi=0.02)), ("db", REF_DB), ("named_create", False), ("redo", False), ("mtime_gran", None), ("reboot_clock", None)):
             if k.get(key) != val:
                 yield dict(plan, knobs=dict(k, **{key: val}))
         if k["scheme"] != "CJJ14.PiBas":
